@@ -68,6 +68,28 @@ fn main() {
             let kinds: Vec<&str> = kinds_s.split(',').collect();
             crash::run_crash(out, seed, stride, &kinds);
         }
+        Some("sched") => {
+            // sched <schedule.json> <out> [backend]: execute a schedule (list of actions of the shared vocabulary), e.g. one
+            // produced from a TLC counterexample, against real clients and record the trace
+            let sched: Vec<Value> = serde_json::from_str(&std::fs::read_to_string(args.get(2).expect("schedule")).unwrap()).unwrap();
+            let out = args.get(3).expect("out path");
+            let backend = args.get(4).map(|s| s.as_str()).unwrap_or("mem");
+            let cfg = MdkConfig::default();
+            let mut w = World::new(cfg.clone());
+            let clients = ["c1", "c2", "c3", "c4"];
+            for c in clients { w.add_client(c, backend); }
+            let f = std::fs::File::create(out).expect("create out");
+            let mut r = Recorder { out: Box::new(std::io::BufWriter::new(f)), i: 0 };
+            let sql: Vec<&str> = if backend == "sql" { clients.to_vec() } else { vec![] };
+            r.emit(meta(&clients, &["g1"], &sql, &cfg));
+            r.emit(json!({"op":"Reset"}));
+            for a in &sched {
+                let v = drivers::exec_action(&mut w, a);
+                r.emit(v);
+            }
+            let posts: Vec<Value> = clients.iter().map(|c| json!({"c":c,"g":"g1","post":w.project(c, "g1")})).collect();
+            r.emit(json!({"op":"Snapshot","posts":posts}));
+        }
         Some("rand") => {
             // rand <out> key=value...
             let out = args.get(2).expect("out path");
